@@ -18,7 +18,9 @@ Pipeline
      every key / item must keep its own earlier class and init_args).
   4. history within one process (oracle): a module attribute named by class_path is re-pointed to a sibling class, a
      plugin module is rewritten with another signature and reloaded; the next parse must follow the CURRENT object.
-  5. open findings are replayed.
+  5. class instantiators registered on a parent parser and on its subcommand parser (oracle + model correspondence of the
+     lookup order): the first matching one in the order own, then inherited, builds the object.
+  6. open findings are replayed.
 """
 from __future__ import annotations
 
@@ -150,7 +152,11 @@ def gen_family(rng):
             if r < 0.55:
                 ps.append(gen_scalar_param(rng, n, 0.25))
             elif r < 0.8:
-                ps.append(P(n, ("cls", "Dep")))
+                if rng.random() < 0.4:
+                    # the default is an instance of a subclass: lazy_instance(DepA, ...)
+                    ps.append(P(n, ("cls", "Dep"), {"lazy": rng.choice(["DepA", "DepB"]), "ia": "FILL"}))
+                else:
+                    ps.append(P(n, ("cls", "Dep")))
             else:
                 ps.append(P(n, ("optCls", "Dep"), None))
         # python syntax: required first
@@ -167,6 +173,10 @@ def gen_family(rng):
     classes.append({"name": "Unrel", "bases": [], "abstract": False, "kwargs": False, "params": [dict(p) for p in base_params]})
     classes.append({"name": "Owner", "bases": [], "abstract": False, "kwargs": False,
                     "params": [P("dep", ("cls", "Base")), P("count", ("scalar", "int"), rng.choice(SCALARS["int"]))]})
+    # a nested class-typed parameter whose DEFAULT is an instance of a subclass of the declared type
+    classes.append({"name": "Garage", "bases": [], "abstract": False, "kwargs": False,
+                    "params": [P("part", ("cls", "Base"), {"lazy": rng.choice(["SubA", "SubB", "SubC", "SubKW"]), "ia": "FILL"}),
+                               P("seats", ("scalar", "int"), rng.choice(SCALARS["int"]))]})
     classes.append({"name": "Holder", "bases": [], "abstract": False, "kwargs": False,
                     "params": [P("elems", ("list", "Dep"), []), P("maybe", ("optCls", "Dep"), None), P("either", ("union", "Dep"), 1), P("table", ("dict", "Dep"), {})]})
     if rng.random() < 0.8:
@@ -178,6 +188,20 @@ def gen_family(rng):
                 for i, q in enumerate(c["params"]):
                     if q["name"] == n0 and q["ty"][0] == "scalar":
                         c["params"][i] = P(n0, ("optScalar", q["ty"][1]), None if rng.random() < 0.7 else rng.choice(SCALARS[q["ty"][1]]))
+    for c in classes:
+        c["params"] = [p for p in c["params"] if p["default"] == "REQ"] + [p for p in c["params"] if p["default"] != "REQ"]
+    # fill the init_args of the lazy_instance defaults: every required scalar of the default's class and some others
+    # (a default class that needs a class-typed argument itself is replaced by a required parameter)
+    tmp_fam = {"classes": classes, "funcs": [], "others": []}
+    for c in classes:
+        for p in c["params"]:
+            if is_lazy(p["default"]) and p["default"]["ia"] == "FILL":
+                dps = cls_of(tmp_fam, p["default"]["lazy"])["params"]
+                if any(q["ty"][0] != "scalar" and q["ty"][0] != "optScalar" and q["default"] == "REQ" for q in dps) or any(is_lazy(q["default"]) for q in dps):
+                    p["default"] = "REQ"
+                    continue
+                p["default"]["ia"] = {q["name"]: rng.choice(SCALARS[q["ty"][1]]) for q in dps
+                                      if q["ty"][0] in ("scalar", "optScalar") and (q["default"] == "REQ" or rng.random() < 0.5)}
     for c in classes:
         c["params"] = [p for p in c["params"] if p["default"] == "REQ"] + [p for p in c["params"] if p["default"] != "REQ"]
     funcs = [{"name": "make_suba", "ret": "SubA", "params": [dict(p) for p in suba if p["ty"][0] == "scalar"][:2]},
@@ -197,18 +221,25 @@ def ann_src(ty):
     return {"scalar": c, "optScalar": "Optional[%s]" % c, "cls": c, "optCls": "Optional[%s]" % c, "list": "List[%s]" % c, "dict": "Dict[str, %s]" % c, "union": "Union[%s, int]" % c}[k]
 
 
+def is_lazy(d):
+    """a class-typed parameter's default `lazy_instance(Cls, **ia)`"""
+    return isinstance(d, dict) and "lazy" in d
+
+
 def params_src(params):
     out = []
     for p in params:
         s = "%s: %s" % (p["name"], ann_src(p["ty"]))
-        if p["default"] != "REQ":
+        if is_lazy(p["default"]):
+            s += " = lazy_instance(%s)" % ", ".join([p["default"]["lazy"]] + ["%s=%r" % kv for kv in p["default"]["ia"].items()])
+        elif p["default"] != "REQ":
             s += " = %r" % (p["default"],)
         out.append(s)
     return out
 
 
 def family_src(fam):
-    out = "import abc\nfrom typing import Optional, List, Dict, Union\n\nLOG = []\n\n\n"
+    out = "import abc\nfrom typing import Optional, List, Dict, Union\n\nfrom jsonargparse import lazy_instance\n\nLOG = []\n\n\n"
     for c in fam["classes"]:
         bases = list(c["bases"])
         if c["abstract"]:
@@ -518,6 +549,12 @@ def split_raw(raw):
 STALE_DK = [False]      # True: compute what the open finding C14-stale-dict-kwargs describes instead of the property
 
 
+def lazy_state(fam, p):
+    """the completed spec a lazy_instance default stands for"""
+    d = p["default"]
+    return ref_finalize(fam, {"t": d["lazy"], "ia": dict(d["ia"]), "dk": {}})
+
+
 def ref_apply(fam, T, state, raw):
     cp, ia, dk = split_raw(raw)
     abstract_T = cls_of(fam, T)["abstract"]
@@ -552,7 +589,11 @@ def ref_apply(fam, T, state, raw):
         else:
             new_dk[k] = v
     for k, v in new_ia.items():
-        kept[k] = ref_value(fam, params, k, kept.get(k), v)
+        prev_k = kept.get(k)
+        q = param_of(params, k)
+        if prev_k is None and k not in kept and q is not None and is_lazy(q["default"]):
+            prev_k = lazy_state(fam, q)          # the parse starts from the parameter's default spec: its class is known
+        kept[k] = ref_value(fam, params, k, prev_k, v)
     kept_dk.update(new_dk)
     return {"t": target, "ia": kept, "dk": kept_dk}
 
@@ -591,14 +632,25 @@ def ref_dotted(fam, T, state, key, raw):
     return ref_apply(fam, T, state, {"bare": {key[0]: {"dotted": key[1:], "raw": raw}}})
 
 
-def ref_finalize(fam, state):
+def ref_finalize(fam, state, fallback=None):
+    """defaults and required parameters; `fallback`: the init_args of the ENCLOSING parameter's lazy_instance default, which
+    act as defaults of whatever class the nested value finally names (scalars the type accepts)"""
     if state is None:
         return None
     out = {}
     for p in target_params(fam, state["t"]):
         if p["name"] in state["ia"]:
             v = state["ia"][p["name"]]
-            out[p["name"]] = ref_finalize(fam, v) if isinstance(v, dict) else (scalar_conv(p["ty"][1], v) if p["ty"][0] in ("scalar", "optScalar") and v is not None else v)
+            if isinstance(v, dict):
+                out[p["name"]] = ref_finalize(fam, v, lazy_state(fam, p)["ia"] if is_lazy(p["default"]) else None)
+            else:
+                out[p["name"]] = scalar_conv(p["ty"][1], v) if p["ty"][0] in ("scalar", "optScalar") and v is not None else v
+        elif fallback is not None and p["name"] in fallback and p["ty"][0] in ("scalar", "optScalar") and not isinstance(fallback[p["name"]], dict) \
+                and value_fits(fam, p, fallback[p["name"]]):
+            v = fallback[p["name"]]
+            out[p["name"]] = scalar_conv(p["ty"][1], v) if v is not None else v
+        elif is_lazy(p["default"]):
+            out[p["name"]] = lazy_state(fam, p)
         elif p["default"] != "REQ":
             out[p["name"]] = p["default"]
         else:
@@ -776,7 +828,16 @@ def real_run(fam, T, argv, twice=True, default=None):
 def wire_param(fam, p):
     k, c = p["ty"]
     ty = [k, c] if k in ("scalar", "optScalar") else [k, canonical(fam, c)]
+    if is_lazy(p["default"]):
+        return {"name": p["name"], "ty": ty, "dflt": [canon_to_val(canon_state(fam, lazy_state(fam, p)))]}
     return {"name": p["name"], "ty": ty, "dflt": [] if p["default"] == "REQ" else [{"lit": lit(p["default"])}]}
+
+
+def canon_to_val(c):
+    """canonical spec -> wire VAL"""
+    if "lit" in c:
+        return {"lit": c["lit"]}
+    return {"spec": {"cp": c["cp"], "ia": [[k, canon_to_val(v)] for k, v in c["ia"].items()], "dk": [[k, canon_to_val(v)] for k, v in c["dk"].items()]}}
 
 
 def model_ok_params(params):
@@ -1044,6 +1105,48 @@ def dk_change_cases(rng, fam):
                 sq.append({"form": "value", "raw": {"bare": {"dep": r3}} if wrap else r3, "via": "argv"})
             out.append((fam, T, sq))
     return out
+
+
+def lazy_default_cases(rng, fam):
+    """a nested class-typed parameter whose default is lazy_instance(Sub, ...): short forms without class_path keep the
+    DEFAULT's class (with and without a sibling init arg set earlier), a class name changes it"""
+    out = []
+    for c in fam["classes"]:
+        if not model_ok_params(c["params"]) or c["abstract"]:
+            continue
+        for p in c["params"]:
+            if not is_lazy(p["default"]):
+                continue
+            T = c["name"]
+            dcls = p["default"]["lazy"]
+            qs = [q for q in target_params(fam, dcls) if q["ty"][0] == "scalar"]
+            req = {q["name"]: gen_value_for(rng, fam, q) for q in c["params"] if q["default"] == "REQ"}
+            if any(isinstance(v, dict) for v in req.values()):
+                continue
+            pre = [{"form": "value", "raw": {"cp": "^" + T, "ia": req, "dk": None}, "via": "argv"}] if req else []
+            sib = [q for q in c["params"] if q["ty"][0] == "scalar" and q["name"] != p["name"]]
+            seqs = [pre + [{"form": "value", "raw": {"name": "^" + T}, "via": "argv"}]]
+            if qs:
+                q = rng.choice(qs)
+                v = rng.choice(SCALARS[q["ty"][1]])
+                short = {"cp": None, "ia": {q["name"]: v}, "dk": None}
+                seqs.append(pre + [{"form": "dotted", "key": [p["name"], q["name"]], "raw": v, "ia_prefix": rng.random() < 0.5}])
+                seqs.append(pre + [{"form": "value", "raw": {"bare": {p["name"]: short}}, "via": rng.choice(["argv", "config"])}])
+                seqs.append(pre + [{"form": "value", "raw": {"cp": None, "ia": {p["name"]: {"bare": {q["name"]: v}}}, "dk": None}, "via": "config"}])
+                if sib:
+                    s0 = rng.choice(sib)
+                    seqs.append(pre + [{"form": "dotted", "key": [s0["name"]], "raw": rng.choice(SCALARS[s0["ty"][1]]), "ia_prefix": False},
+                                       {"form": "dotted", "key": [p["name"], q["name"]], "raw": v, "ia_prefix": False}])
+            other = [t for t in acceptable(fam, p["ty"][1]) if cls_of(fam, t) and t != dcls and not t.startswith("%")]
+            if other:
+                o = rng.choice(other)
+                ia_o = {k: v for k, v in gen_ia(rng, fam, o).items()}
+                seqs.append(pre + [{"form": "dotted", "key": [p["name"]], "raw": {"cp": name_notation(rng, fam, p["ty"][1], o), "ia": ia_o, "dk": None}, "ia_prefix": False}])
+            for sq in seqs:
+                if sq and not has_dk_before_change(fam, T, sq):
+                    out.append((fam, T, sq))
+    rng.shuffle(out)
+    return out[:8]
 
 
 def none_carry_cases(rng, fam):
@@ -1831,6 +1934,131 @@ def run_history(ctx: Ctx, fam, seed, origin):
                       {"kind": "history", "origin": origin, "family": fam, "seed": seed, "module": family_src(fam)})
 
 
+# ---------------------------------------------------------------------------------------------
+# class instantiators registered on two parser levels: a subcommand parser's own come before the inherited ones
+# A case: regs = [[level "own"|"parent", tag, class name, subclasses, prepend]], opt = class for --opt, dep = class for --own.dep
+# ---------------------------------------------------------------------------------------------
+def instantiator_cases(rng, fam):
+    concrete = [t for t in acceptable(fam, "Base") if cls_of(fam, t) and not t.startswith("%")
+                and not any(q["default"] == "REQ" and q["ty"][0] not in ("scalar", "optScalar") for q in target_params(fam, t))]
+    if len(concrete) < 2:
+        return []
+    out = []
+    keys = ["Base"] + concrete
+    for n in range(3):
+        x, y = rng.choice(concrete), rng.choice(concrete)
+        regs = []
+        if n == 0:
+            # the situation of the documented order: catch-all on the parent, exact class on the subcommand parser
+            regs = [["parent", "p:Base+", "Base", True, False], ["own", "o:%s" % x, x, rng.random() < 0.5, False]]
+        else:
+            for i in range(rng.randint(2, 4)):
+                k = rng.choice(keys)
+                lvl = rng.choice(["own", "parent"])
+                regs.append([lvl, "%s%d:%s" % (lvl[0], i, k), k, rng.random() < 0.6, rng.random() < 0.3])
+        out.append((fam, {"regs": regs, "opt": x, "dep": y}))
+    return out
+
+
+def ref_instantiator_order(regs, level):
+    reg = []
+    for lvl, tag, cls, sub, prepend in regs:
+        if lvl != level:
+            continue
+        reg = [r for r in reg if (r[1], r[2]) != (cls, sub)]
+        reg = [[tag, cls, sub]] + reg if prepend else reg + [[tag, cls, sub]]
+    return reg
+
+
+def ref_pick(fam, regs, cls):
+    own = ref_instantiator_order(regs, "own")
+    parent = [r for r in ref_instantiator_order(regs, "parent") if not any((r[1], r[2]) == (o[1], o[2]) for o in own)]
+    for tag, k, sub in own + parent:
+        if k == cls or (sub and is_sub(fam, cls, k)):
+            return tag
+    return "default"
+
+
+def instantiator_real(fam, case):
+    """[(class name, tag that built it)] in construction order"""
+    from jsonargparse import ArgumentParser
+
+    mod = module_for(fam)
+    tags = []
+
+    def make(tag):
+        def fn(cls, *a, **k):
+            obj = cls(*a, **k)
+            tags.append((id(obj), tag))
+            return obj
+        return fn
+
+    root = ArgumentParser(exit_on_error=False)
+    fit = ArgumentParser(exit_on_error=False)
+    fit.add_argument("--opt", type=mod.Base)
+    fit.add_argument("--own", type=mod.Owner)
+    root.add_subcommands().add_subcommand("fit", fit)
+    for lvl, tag, cls, sub, prepend in case["regs"]:
+        (fit if lvl == "own" else root).add_instantiator(make(tag), getattr(mod, cls), subclasses=sub, prepend=prepend)
+    rng = random.Random(json.dumps(case, sort_keys=True))
+    spec = lambda t: {"class_path": canonical(fam, t), "init_args": raw_ia_json(fam, {k: v for k, v in gen_ia(rng, fam, t).items() if not isinstance(v, dict)})}  # noqa: E731
+    cfg = root.parse_args(["fit", "--opt", json.dumps(spec(case["opt"])), "--own", json.dumps({"class_path": canonical(fam, "Owner"), "init_args": {"dep": spec(case["dep"])}})])
+    mod.LOG.clear()
+    root.instantiate_classes(cfg)
+    log = list(mod.LOG)
+    mod.LOG.clear()
+    by_id = dict(tags)
+    return [(name, by_id.get(oid, "default")) for name, oid, _, _ in log]
+
+
+def run_instantiators(ctx: Ctx, cases, origin):
+    lines, index, last = [], [], None
+    for fam, case in cases:
+        if modname(fam) != last:
+            lines.append({"setenv": wire_env(fam)})
+            last = modname(fam)
+        start = len(lines)
+        for cls in (case["opt"], case["dep"], "Owner"):
+            lines.append({"instantiators": {lvl: [[tag, canonical(fam, c), sub, pre] for l2, tag, c, sub, pre in case["regs"] if l2 == lvl] for lvl in ("own", "parent")},
+                          "cls": canonical(fam, cls)})
+        index.append(start)
+    model = None
+    if lines:
+        try:
+            model = ctx.driver("ClassPath", lines)
+        except MachineryError as ex:
+            if ctx.lean_ok:
+                raise
+            ctx.tie_break("correspondence E10b not runnable (model does not build)", str(ex))
+    bad = 0
+    for i, (fam, case) in enumerate(cases):
+        ctx.count()
+        ctx.hist("instantiators", "%d registrations" % len(case["regs"]))
+        try:
+            real = instantiator_real(fam, case)
+        except Exception as ex:  # noqa: BLE001
+            ctx.violation("instantiate_classes with registered instantiators fails: %s: %s" % (type(ex).__name__, str(ex)[:200]),
+                          {"kind": "instantiators", "origin": origin, "family": fam, "case": case, "module": family_src(fam)})
+            continue
+        want = [(name, ref_pick(fam, case["regs"], name)) for name, _ in real]
+        if real != want:
+            ctx.violation("the object is not built by the first matching instantiator in the order own parser, then parent parser: built %s, expected %s (registrations %s)"
+                          % (json.dumps(real), json.dumps(want), json.dumps(case["regs"])),
+                          {"kind": "instantiators", "origin": origin, "family": fam, "case": case, "module": family_src(fam)})
+        elif any(t != "default" for _, t in real):
+            ctx.nontrivial(json.dumps(["instantiators", family_src(fam), case]))
+        if model is not None:
+            got = dict(real)
+            for off, cls in enumerate((case["opt"], case["dep"], "Owner")):
+                mt = model[index[i] + off]["tag"]
+                if cls in got and got[cls] != mt and [n for n, _ in real].count(cls) == 1:
+                    bad += 1
+                    if bad <= 3:
+                        ctx.tie_break("correspondence E10b (instantiator order model vs jsonargparse._core._get_instantiators) disagrees",
+                                      json.dumps({"class": cls, "real": got[cls], "model": mt, "case": case}, ensure_ascii=True)[:1500])
+    return bad
+
+
 def run(ctx: Ctx):
     repo_python_path()
     ctx.rule = ("case = (generated class family as a real module: Base (sometimes abstract), SubA/SubB/SubC adding, overriding and dropping "
@@ -1852,13 +2080,13 @@ def run(ctx: Ctx):
         corpus_cases = [(c["family"], c["declared"], c["sources"]) for c in corpus_all if "sources" in c]
         bad = run_cases(ctx, corpus_cases, "corpus")
         bad += run_container_multi_batch(ctx, [(c["family"], c["container"]["ckind"], c["container"]["sources"]) for c in corpus_all if "container" in c], "corpus")
-        n_fam = ctx.budget(40, 450) * (2 if ctx.search_boost > 1 else 1)
+        n_fam = ctx.budget(28, 380) * (2 if ctx.search_boost > 1 else 1)
         cases = []
         fams = []
         for _ in range(n_fam):
             fam = gen_family(ctx.rng)
             fams.append(fam)
-            for T in ("Base", "Base", "SubA", "Dep", "Owner", "Owner"):
+            for T in ("Base", "Base", "SubA", "Dep", "Owner", "Owner", "Garage"):
                 for _ in range(ctx.budget(3, 4)):
                     src = gen_sources(ctx.rng, fam, T, ctx.rng.randint(1, 3))
                     if not has_dk_before_change(fam, T, src):
@@ -1875,6 +2103,12 @@ def run(ctx: Ctx):
             n_carry += len(nc)
             cases.extend(nc)
         ctx.extra["none_carried_across_class_change_cases"] = n_carry
+        n_lazy = 0
+        for fam in fams:
+            lc = lazy_default_cases(ctx.rng, fam)
+            n_lazy += len(lc)
+            cases.extend(lc)
+        ctx.extra["lazy_instance_default_cases"] = n_lazy
         n_dk = 0
         for fam in fams:
             dc = dk_change_cases(ctx.rng, fam)
@@ -1892,6 +2126,13 @@ def run(ctx: Ctx):
                 run_container(ctx, fam, valid, ia)
             multi.extend(container_multi_cases(ctx.rng, fam))
         bad += run_container_multi_batch(ctx, multi, "generated")
+        # instantiators registered on the parent parser and on the subcommand parser
+        icases = []
+        if corpus_cases:
+            icases += instantiator_cases(random.Random(7), corpus_cases[0][0])
+        for fam in fams[: ctx.budget(15, 60)]:
+            icases += instantiator_cases(ctx.rng, fam)
+        bad += run_instantiators(ctx, icases, "generated")
         # history within the process (re-pointed module attribute, reloaded plugin module)
         if corpus_cases:
             run_history(ctx, corpus_cases[0][0], 0, "corpus")
@@ -1941,6 +2182,13 @@ def replay(ctx: Ctx, body):
             print("explicit:", build_argv(fam, rp["explicit"]), "->", json.dumps(a.get("cfg"))[:400])
             print("variant :", build_argv(fam, rp["variant"]), "->", json.dumps(b.get("cfg"))[:400])
             return 1 if (a["kind"], a.get("cfg")) != (b["kind"], b.get("cfg")) else 0
+        if rp.get("kind") == "instantiators":
+            real = instantiator_real(rp["family"], rp["case"])
+            want = [(name, ref_pick(rp["family"], rp["case"]["regs"], name)) for name, _ in real]
+            print("registrations (level, tag, class, subclasses, prepend):", rp["case"]["regs"])
+            print("built   :", real)
+            print("expected:", want)
+            return 1 if [list(x) for x in real] != [list(x) for x in want] else 0
         if rp.get("kind") == "history":
             dev = history_problem(rp["family"], rp["seed"])
             print("history (re-pointed module attribute, then a reloaded plugin module):", dev)
